@@ -171,7 +171,7 @@ def run(ctx):
     big = []
     for _ in range(ctx.budget(12, 60)):
         c = L.gen_case(ctx.rng, present, nmax=12, force=dict(n=int(ctx.rng.choice([30, 64, 100, 200, 300])), kind="dense"))
-        c["max_iters"] = int(ctx.rng.choice([1, 5, 20, 40]))
+        c["max_iters"] = int(ctx.rng.choice([1, 5, 20, 40, 64, 110]))
         if not L.in_avoided_region(c, present):
             big.append(c)
 
@@ -234,17 +234,40 @@ def run(ctx):
     # exhaustion, tolerances on the boundary of the stopping test (0, beta_1/||A q_1||, 1), every max_iters around the grade and
     # around n; bit-exact runs, compared without any excuse (codes_plain) and by the oracle
     exact = [L.gen_exact_case(ctx.rng) for _ in range(ctx.budget(120, 700))]
+    # ... and exact inputs with CONSTANT recurrence coefficients (tridiagonal Toeplitz from e_1): beta_j identical bit for bit at every
+    # step while the Krylov space grows to dimension n; a few with n = max_iters straddling 50 and 100
+    exact += [L.gen_constant_recurrence(ctx.rng) for _ in range(ctx.budget(30, 150))]
+    exact_big = []
+    for nb in ctx.budget([52, 101], [33, 52, 64, 101, 130]):
+        cb = L.gen_constant_recurrence(ctx.rng, n=nb); cb["max_iters"] = nb + int(ctx.rng.choice([0, 0, 1])); cb["tol"] = float(ctx.rng.choice([1e-7, 0.0]))
+        exact_big.append(cb)
+    n_small_exact = len(exact)
+    exact += exact_big
     xobs = [L.run_impl(c) for c in exact]
     xok = [i for i, o in enumerate(xobs) if o.get("ok")]
-    xcodes, xerr, _ = eval_cases("c14_exact", [L.coq_case(exact[i], xobs[i], "lanczos_alias_identity" in present, rfix) for i in xok], fn="codes_plain")
-    if xerr:
-        mism.append(dict(oracle_fail=False, harness_error=xerr))
-    xbad = {xok[j] for j in (xcodes or {})}
+    xs = [i for i in xok if i < n_small_exact]; xb = [i for i in xok if i >= n_small_exact]
+    xterm = lambda i: L.coq_case(exact[i], xobs[i], "lanczos_alias_identity" in present, rfix)
+    xcodes, xerr, _ = eval_cases("c14_exact", [xterm(i) for i in xs], fn="codes_plain")
+    bcodes, berr, _ = eval_cases("c14_exactbig", [xterm(i) for i in xb], fn="codes_plain", shard=1)
+    if xerr or berr:
+        mism.append(dict(oracle_fail=False, harness_error=xerr or berr))
+    xbad = {xs[j] for j in (xcodes or {})} | {xb[j] for j in (bcodes or {})}
     for i, (c, o) in enumerate(zip(exact, xobs)):
         bad = L.oracle(c, o)
         if bad or i in xbad:
             mism.append(dict(oracle_fail=bool(bad), case=c, got={k: o.get(k) for k in ("ok", "err", "k", "shapes", "off", "diag")}, failed_clauses=bad,
                              model_disagrees=("exact-arithmetic case: columns/values differ from the model (no tolerance excuse applies)" if i in xbad else None)))
+    # lanczos_eigs over tolerances 1e-14..1e-3 and weak couplings 1e-13..1e-3: values = eig of the T of lanczos() with the same arguments,
+    # and the spectrum of A whenever the tolerance resolves the coupling
+    weak = [L.gen_weak_coupling(ctx.rng) for _ in range(ctx.budget(40, 250))]
+    if {"lanczos_reltol_first_step", "lanczos_start_dtype_cast"} & set(present):
+        avoided["weak_coupling_eigs"] = len(weak)
+        weak = []
+    for c in weak:
+        o = L.run_impl(c)
+        bad = L.oracle_eigs(c, o)
+        if bad:
+            mism.append(dict(oracle_fail=True, case=c, got={k: o.get(k) for k in ("ok", "err", "k", "shapes", "eigs", "off", "diag")}, failed_clauses=bad))
     for c in gone_region + big:
         o = L.run_impl(c)
         bad = L.oracle(c, o, check_span=c["n"] <= 64)
@@ -265,7 +288,7 @@ def run(ctx):
             m = min(c["max_iters"], c["n"])
             eh["early" if o["k"] < m else "cap"] = eh.get("early" if o["k"] < m else "cap", 0) + 1
     return dict(
-        evaluations=len(cases) + len(gone_region) + len(big) + len(mixed) + len(exact), distinct_nontrivial=distinct,
+        evaluations=len(cases) + len(gone_region) + len(big) + len(mixed) + len(exact) + len(weak), distinct_nontrivial=distinct,
         rule="Hermitian operators n<=%d (dense/PSD/Sum/Product/Diagonal/ScalarMul/Kronecker/Tridiagonal/matmat-defined; real and complex; gaussian, definite, indefinite, "
              "repeated and clustered spectra), starts random/few eigenvectors/exact eigenvectors/scaled, 1-D and batched, max_iters 1..n+3, ten tolerances; "
              "non-trivial = n>=3 and >=2 columns returned; distinct by hash of (operator data, start, max_iters, tol)" % nmax,
@@ -275,7 +298,7 @@ def run(ctx):
         extra=dict(compared_in_coq=len(idx) + alias_wit, model_stopping_test=("repaired" if rfix else "pinned"), alias_witness_compared=alias_wit, max_model_impl_difference=maxdiff, tolerance=1e-9, near_tie=hist.get(1, 0), noise_amplified_skipped=hist.get(2, 0), agree=hist.get(0, 0),
                    kind_histogram=kh, start_histogram=sh, max_iters_vs_n=mh, exit_histogram=eh,
                    complex_cases=sum(1 for c in cases if c["cplx"]), batched_cases=sum(1 for c in cases if c["batch"]),
-                   avoided_regions=avoided, exact_stream_cases=len(exact), exact_stream_tol0=sum(1 for c in exact if c['tol'] == 0.0), mixed_batches_used=len(mixed), batch_elements_vs_single_start=elem_compared, defect_free_region_cases=len(gone_region), large_oracle_only=len(big),
+                   avoided_regions=avoided, weak_coupling_eigs_cases=len(weak), exact_stream_cases=len(exact), exact_stream_tol0=sum(1 for c in exact if c['tol'] == 0.0), mixed_batches_used=len(mixed), batch_elements_vs_single_start=elem_compared, defect_free_region_cases=len(gone_region), large_oracle_only=len(big),
                    impl_exceptions=sum(1 for o in obs if not o.get("ok"))))
 
 
